@@ -294,7 +294,7 @@ void SimAlloc::s_free(void *opaque, void *ptr)
 const char *input_class_name(int c)
 {
 	static const char *n[] = { "empty", "one", "random", "zeros", "runs", "text",
-		"repeat_far", "x86ish", "mixed", "sparse" };
+		"repeat_far", "x86ish", "mixed", "sparse", "lowent" };
 	return c >= 0 && c < IN_CLASS_COUNT ? n[c] : "?";
 }
 
@@ -375,6 +375,24 @@ Bytes gen_input(int cls, size_t len, uint64_t seed)
 			else { n = 1 + n % 200; while (n-- && b.size() < len) b.push_back((uint8_t)(1 + r.below(255))); }
 		}
 		break;
+	case IN_LOWENT: {
+		// a few symbols with uneven frequencies (the optimum parser runs long
+		// without a reset) and now and then a long verbatim repeat of earlier
+		// data (matches longer than nice_len, up to and beyond the 273 limit)
+		unsigned nsym = 2 + (unsigned)r.below(5);
+		static const uint64_t gaps[] = { 300, 2000, 6000, 12000 };
+		uint64_t gap = gaps[r.below(4)];
+		bool uneven = r.chance(400);
+		while (b.size() < len) {
+			if (b.size() > 600 && r.below(gap) == 0) {
+				size_t n = 100 + r.below(500);
+				size_t back = 1 + r.below(std::min<size_t>(b.size() - n > 0 && b.size() > n ? b.size() - n : 1, 30000));
+				size_t from = b.size() > n + back ? b.size() - n - back : 0;
+				while (n-- && b.size() < len) b.push_back(b[from++]);
+			} else b.push_back((uint8_t)('a' + (uneven && r.chance(500) ? 0 : r.below(nsym))));
+		}
+		break;
+	}
 	default: break;
 	}
 	b.resize(len);
